@@ -1201,6 +1201,29 @@ def _put_one_AnnAssign_target(
     return ret
 
 
+def _put_one_Starred_value(
+    self: fst.FST,
+    code: _PutOneCode,
+    idx: int | None,
+    field: str,
+    child: _Child,
+    static: onestatic,
+    options: Mapping[str, Any],
+) -> fst.FST:
+    """Disallow non-targetable expressions in a `Starred` which is itself a target, same as for `Tuple` and `List`
+    elements."""
+
+    child, idx = _validate_put(self, code, idx, field, child)
+    code = static.code_as(code, options, self.root._parse_params, strip=True,
+                          coerce=fst.FST.get_option('coerce', options))
+
+    if (ctx_cls := self.a.ctx.__class__) is not Load:
+        if (codea := code.a).__class__ is Starred or not is_valid_target(codea):
+            raise NodeError(f'invalid expression for Starred {ctx_cls.__name__} target')
+
+    return _put_one_exprlike_required(self, code, idx, field, child, static, options, 2)
+
+
 def _put_one_Name_no_pars(
     self: fst.FST,
     code: _PutOneCode,
@@ -2994,7 +3017,7 @@ _PUT_ONE_HANDLERS = {
     (Subscript, 'value'):                 (False, _put_one_Subscript_value, _onestatic_expr_required),  # expr
     (Subscript, 'slice'):                 (False, _put_one_Subscript_slice, onestatic(_one_info_exprlike_required, _restrict_fmtval_starred, code_as=code_as_expr_slice)),  # expr
     (Subscript, 'ctx'):                   (False, _put_one_ctx, _onestatic_ctx),  # expr_context
-    (Starred, 'value'):                   (False, _put_one_exprlike_required, _onestatic_expr_required),  # expr
+    (Starred, 'value'):                   (False, _put_one_Starred_value, _onestatic_expr_required),  # expr
     (Starred, 'ctx'):                     (False, _put_one_ctx, _onestatic_ctx),  # expr_context
     (Name, 'id'):                         (False, _put_one_identifier_required, _onestatic_identifier_required),  # identifier
     (Name, 'ctx'):                        (False, _put_one_ctx, _onestatic_ctx),  # expr_context
